@@ -68,11 +68,11 @@ theorem counts_iff_pairing [DecidableEq G2] (pr : Pairing F G G2 GT) (cd : Codec
 `f(0)•g₂ = pubPoly.Commit()`, and at least `t` distinct members contributed -/
 theorem recover_ok_pairing (pr : Pairing F G G2 GT) (cd : Codec G)
     (hcd : ∀ p, cd.decode (cd.encode p) = some p) (f : List F) (hm : G) (t n : Nat) (ht : 0 < t)
-    (hf : f.length ≤ t) (hc : CharGt F n) (sigs : List Bytes) (s : Bytes)
+    (hc : CharGt F n) (sigs : List Bytes) (s : Bytes)
     (h : recover cd f hm sigs t n = .ok s) :
     t ≤ (members cd f hm n sigs).card
       ∧ ∃ S : G, cd.decode s = some S ∧ pr.verifyEq (f.headD 0 • pr.g2) hm S := by
-  obtain ⟨h1, _, h3⟩ := Props.C03.recover_ok_verifies cd hcd f hm t n ht hf hc sigs s h
+  obtain ⟨h1, _, h3⟩ := Props.C03.recover_ok_verifies cd hcd f hm t n ht hc sigs s h
   exact ⟨h1, (blsVerify_iff_pairing pr cd (f.headD 0) hm s).1 h3⟩
 
 /-- the group key the contract holds is the first commitment of the public polynomial -/
@@ -88,18 +88,18 @@ section bn256
 variable {G : Type} [AddCommGroup G] [Module (Zq Share.bn256Order) G] [DecidableEq G]
 
 theorem recover_ok_verifies_bn256 (cd : Codec G) (hcd : ∀ p, cd.decode (cd.encode p) = some p)
-    (f : List (Zq Share.bn256Order)) (hm : G) (t n : Nat) (ht : 0 < t) (hf : f.length ≤ t)
+    (f : List (Zq Share.bn256Order)) (hm : G) (t n : Nat) (ht : 0 < t)
     (hn : n < 2 ^ 63) (sigs : List Bytes) (s : Bytes) (h : recover cd f hm sigs t n = .ok s) :
     t ≤ (members cd f hm n sigs).card ∧ s = cd.encode (f.headD 0 • hm)
       ∧ blsVerifyR cd (f.headD 0) hm s = .ok :=
-  Props.C03.recover_ok_verifies cd hcd f hm t n ht hf
+  Props.C03.recover_ok_verifies cd hcd f hm t n ht
     (Props.C09.zq_charGt Share.bn256Order n (Nat.lt_trans hn (by decide))) sigs s h
 
 theorem padding_irrelevant_bn256 (cd : Codec G) (f : List (Zq Share.bn256Order)) (hm : G)
-    (t n : Nat) (ht : 0 < t) (hf : f.length ≤ t) (hn : n < 2 ^ 63) (s₁ s₂ : List Bytes)
+    (t n : Nat) (ht : 0 < t) (hn : n < 2 ^ 63) (s₁ s₂ : List Bytes)
     (h : ∀ e, validIdx cd f hm n e ≠ none → (e ∈ s₁ ↔ e ∈ s₂)) :
     recover cd f hm s₁ t n = recover cd f hm s₂ t n :=
-  Props.C03.padding_irrelevant cd f hm t n ht hf
+  Props.C03.padding_irrelevant cd f hm t n ht
     (Props.C09.zq_charGt Share.bn256Order n (Nat.lt_trans hn (by decide))) s₁ s₂ h
 
 end bn256
@@ -123,7 +123,7 @@ open C02 in
 example : ∃ S, toyCodec.decode (blsSign toyCodec (4 : Zq 11) 2) = some S ∧
     (mulPairing (Zq 11)).verifyEq (([(4 : Zq 11), 3]).headD 0 • (mulPairing (Zq 11)).g2) 2 S :=
   (recover_ok_pairing (mulPairing (Zq 11)) toyCodec toyCodec_roundtrip [(4 : Zq 11), 3] 2 2 3 (by decide)
-    (by decide) (C09.zq_charGt 11 3 (by decide))
+    (C09.zq_charGt 11 3 (by decide))
     [[0, 9, 200], [0, 2, 4], [0, 2, 4, 77], [5], [0, 0, 8], [0, 0, 3]] _ (by decide)).2
 
 end Dos.Props.C03Compose
